@@ -32,6 +32,9 @@ Proof. vm_compute. reflexivity. Qed.
 Lemma gen_geo_ordering_ok : forallb geo_ordering_ok gen_tools = true.
 Proof. vm_compute. reflexivity. Qed.
 
+Lemma gen_variant_doc_ok : forallb variant_doc_ok gen_tools = true.
+Proof. vm_compute. reflexivity. Qed.
+
 Lemma in_gen {P : tool -> bool} t : forallb P gen_tools = true -> In t gen_tools -> P t = true.
 Proof. intros H Hin. rewrite forallb_forall in H. auto. Qed.
 
@@ -510,4 +513,23 @@ Proof.
     apply tok_eqb_eq in Huniq. rewrite Huniq, Hn. reflexivity.
   - exfalso. pose proof (find_none _ _ F' d Hin) as X. cbv beta in X.
     rewrite tok_eqb_refl in X. discriminate.
+Qed.
+
+(* ---------------------------------------------------------------- alias -> variant partition *)
+Lemma alias_variant_partition t b a :
+  In t gen_tools -> In b (t_blocks t) -> In a (t_documented t) -> ~ In a (b_variant b).
+Proof.
+  intros Ht Hb Hd Hv. pose proof (in_gen t gen_variant_doc_ok Ht) as H. unfold variant_doc_ok in H.
+  rewrite forallb_forall in H. specialize (H b Hb). rewrite forallb_forall in H. specialize (H a Hv).
+  apply negb_true_iff in H. assert (existsb (tok_eqb a) (t_documented t) = true); [|congruence].
+  apply existsb_exists. exists a. split; auto. apply tok_eqb_refl.
+Qed.
+
+Lemma documented_alias_default_variant t b a pre post :
+  In t gen_tools -> In b (t_blocks t) -> In a (t_documented t) ->
+  variant_of (pre ++ a :: post) b (List.length pre) = false.
+Proof.
+  intros Ht Hb Hd. rewrite variant_here.
+  destruct (existsb (tok_eqb a) (b_variant b)) eqn:E; auto. exfalso.
+  apply existsb_eqb_in in E. eapply alias_variant_partition; eauto.
 Qed.
